@@ -29,6 +29,13 @@ Replace-around steps (last section of lean/Props/C17.lean):
   gap" is computed from the real `ResolvedPos` data (`inside_gap` below) and by the model (driver op `gapGuard`),
   compared, and the relational oracle "guard true => the real code's four applications succeed and give equal
   documents" is checked on every such pair (counters `gapGuard:<guard>,<converged|an-order-fails>`).
+* the further hypotheses of `commute_succeeds_around_gap` are counted on the pairs with a true guard
+  (`gapGuard-true:slice-closed=…,ends-aligned=…`; slice closedness compared with the real step, alignment model-only).
+* mark step outside `[from, to]` of a replace-around step (`commute_succeeds_around_mark_partial`): `commuteGuard` with
+  the mark step's range and the open depths of `doc.slice(from, to)`, same tie and oracle (`guard-around-mark:*`).
+* attr / remove-node-mark step outside `[from, to]` of a replace-around step with a closed slice
+  (`commute_succeeds_around_nodeStep_closed_partial`, no guard): relational oracle on the real code
+  (`nodeStep-closed=>converge`), counter `nodeStep-outside:slice-closed=…`.
 * two replace-around steps one after the other (`commute_succeeds_around_around`): `commuteGuard` on `(from, to, slice)`
   of both, same tie and oracle as for replace steps (counters `guard-around-around:*`).
 """
@@ -43,6 +50,7 @@ from prosemirror.transform import (
     Transform,
 )
 from prosemirror.transform.doc_attr_step import DocAttrStep
+from prosemirror.model import Slice
 
 from .. import core, gen, ops, schemas
 from ..codec import step_map
@@ -152,6 +160,16 @@ def inside_gap(doc, a, r):
         d += 1
 
 
+class AsReplace:
+    """a mark step seen as the replace of its range by the re-marked slice (`markStep_as_replace`, lean/Proofs/
+    CommuteAroundAgain.lean): range and open depths of `doc.slice(from, to)`"""
+    def __init__(self, st, doc):
+        if hasattr(st, "pos"):   # node-mark / attr step: the one-token range, closed slice (`nodeStep_full`)
+            self.from_, self.to, self.slice = st.pos, st.pos + 1, Slice.empty
+        else:
+            self.from_, self.to, self.slice = st.from_, st.to, doc.slice(st.from_, st.to)
+
+
 def first_step(rng, info, d, docs):
     tr = Transform(d)
     name, args, thunk = ops.plan_op(rng, info, d, docs)
@@ -198,10 +216,16 @@ def run(ctx):
             if req["op"] == "gapGuard":
                 replay, impl_guard, converged = meta
                 ctx.count("gapGuard:model_requests")
-                if out.get("ok") is not impl_guard:
+                mo = out.get("ok")
+                if not isinstance(mo, list) or len(mo) != 3 or mo[0] is not impl_guard[0] or mo[1] is not impl_guard[1]:
                     ctx.mismatch("gapGuard", replay, impl_guard, out)
                     continue
-                ctx.count("gapGuard:%s,%s" % (impl_guard, "converged" if converged else "an-order-fails"))
+                impl_guard = impl_guard[0]
+                kind = "" if req["b"][0] in ("replace", "replaceAround") else "-mark" if req["b"][0] in ("addMark", "removeMark") else "-node"
+                ctx.count("gapGuard%s:%s,%s" % (kind, impl_guard, "converged" if converged else "an-order-fails"))
+                if impl_guard and not kind:
+                    # the further hypotheses of `commute_succeeds_around_gap`: closed slice (`hcl`), aligned ends (`hdbal`)
+                    ctx.count("gapGuard-true:slice-closed=%s,ends-aligned=%s" % (mo[1], mo[2]))
                 if impl_guard and not converged:
                     # the conclusion of `commute_succeeds_around_gap` fails on the real code although its guard holds
                     ctx.mismatch("gapGuard=>converge", replay, "a rebased step fails or the orders differ", out)
@@ -305,10 +329,13 @@ def run(ctx):
                             da_, db_, x2, y2, dxy, dyx = sq
                             if da_ is None or db_ is None:
                                 break
-                            if isinstance(y, (ReplaceStep, ReplaceAroundStep)):
-                                stg, g = outcome(lambda: inside_gap(d, x, y))
+                            if isinstance(y, (ReplaceStep, ReplaceAroundStep, AddMarkStep, RemoveMarkStep, AddNodeMarkStep, RemoveNodeMarkStep, AttrStep)):
+                                # mark steps: `commute_succeeds_around_mark_gap_partial` (the guard on the slice they re-mark); node-mark / attr
+                                # steps: `commute_succeeds_around_nodeStep_gap_partial` (one-token range, closed slice)
+                                stg, g = outcome(lambda: (inside_gap(d, x, y if hasattr(y, "slice") else AsReplace(y, d)),
+                                                          x.slice.open_start == 0 and x.slice.open_end == 0))
                                 if stg == "ok":
-                                    sreqs.append({"op": "gapGuard", "doc": info.node(d), "a": info.step(x), "b": info.step(y)})
+                                    sreqs.append({"op": "gapGuard", "s": info.lean_id, "doc": info.node(d), "a": info.step(x), "b": info.step(y)})
                                     smetas.append((greplay, g, x2 is not None and y2 is not None and dxy is not None
                                                    and dyx is not None and dxy.eq(dyx)))
                             if x2 is None or y2 is None:
@@ -360,6 +387,29 @@ def run(ctx):
                             ctx.count("guard-around%s:" % ("" if n_around == 1 else "-around") + ("holds" if (g[0] or g[1]) else "fails"))
                             greqs.append({"op": "commuteGuard", "doc": info.node(d), "a": info.step(l), "b": info.step(r)})
                             gmetas.append((replay, g, dab is not None and dba is not None and dab.eq(dba)))
+                    MARKUP = (AddMarkStep, RemoveMarkStep, AddNodeMarkStep, RemoveNodeMarkStep, AttrStep)
+                    if n_around == 1 and (isinstance(a, MARKUP) or isinstance(b, MARKUP)):
+                        # `commute_succeeds_around_mark_partial` / `commute_succeeds_around_nodeStep_partial`: the guard with the
+                        # mark step's range and the open depths of the slice it re-marks, resp. the one-token range of a
+                        # node-mark / attr step with a closed slice
+                        l, r = (a, b) if span(a)[1] <= span(b)[0] else (b, a)
+                        stg, g = outcome(lambda: (lambda l2, r2: (inside_left(d, l2, r2), inside_right(d, l2, r2)))(
+                            *(x if isinstance(x, ReplaceAroundStep) else AsReplace(x, d) for x in (l, r))))
+                        if stg == "ok":
+                            other = b if isinstance(a, ReplaceAroundStep) else a
+                            ctx.count("guard-around-%s:" % ("mark" if isinstance(other, (AddMarkStep, RemoveMarkStep)) else "node")
+                                      + ("holds" if (g[0] or g[1]) else "fails"))
+                            greqs.append({"op": "commuteGuard", "doc": info.node(d), "a": info.step(l), "b": info.step(r)})
+                            gmetas.append((replay, g, dab is not None and dba is not None and dab.eq(dba)))
+                    if n_around == 1 and (isinstance(a, (AttrStep, RemoveNodeMarkStep)) or isinstance(b, (AttrStep, RemoveNodeMarkStep))):
+                        # `commute_succeeds_around_nodeStep_closed_partial`: no guard when the replace-around step's slice is
+                        # closed — the real code must apply both rebased steps and converge
+                        ar = a if isinstance(a, ReplaceAroundStep) else b
+                        closed = ar.slice.open_start == 0 and ar.slice.open_end == 0
+                        ctx.count("nodeStep-outside:slice-closed=%s" % closed)
+                        if closed and not (dab is not None and dba is not None and dab.eq(dba)):
+                            ctx.mismatch("nodeStep-closed=>converge", replay, "both rebased steps apply, equal documents",
+                                         {"ab_ok": dab is not None, "ba_ok": dba is not None})
                     if type(a) is ReplaceStep and type(b) is ReplaceStep:
                         l, r = (a, b) if a.to < b.from_ else (b, a)
                         stg, g = outcome(lambda: (inside_left(d, l, r), inside_right(d, l, r)))
